@@ -178,7 +178,7 @@ def loop_level(ctx):
     crc32 = impl.mod("crypto").crc32
     for sitname in ("half-open", "established"):
         kinds = [("crc", t, n) for t in (1, 2, 3, 4, 5, 6, 7) for n in (0, 1, 2)] + [("otherkey", t, 1) for t in (3, 4, 6)] + [("random", t, 0) for t in (3, 4, 5, 6, 7)] + \
-                [("flip", 0, 0), ("truncate", 0, 0), ("retype", 3, 0), ("retype", 5, 0), ("retype", 6, 0)]
+                [("flip", 0, 0), ("truncate", 0, 0), ("retype", 3, 0), ("retype", 5, 0), ("retype", 6, 0)] + [("flood", 0, 400), ("flood", 0, 150)]
         for kind, htype, n in kinds:
             w = SW.ServerWorld(seed=ctx.seed, conn_timeout=30.0, temp_timeout=30.0)
             try:
@@ -232,6 +232,8 @@ def loop_level(ctx):
                     raw = bytes(t)
                 elif kind == "truncate":
                     raw = held[:len(held) - 5]
+                elif kind == "flood":
+                    raw = b""
                 else:
                     t = bytearray(held)
                     if t[12] == htype:
@@ -240,11 +242,42 @@ def loop_level(ctx):
                     raw = bytes(t)
                 before = snapshot(conn)
                 ev0 = len(w.ev)
-                w.inject(raw, ADDR, kind="forged")
-                w.tick()
-                w.tick()
+                if kind == "flood":
+                    # "injected at every point" includes right behind one another: n forged datagrams of every kind from the client's address inside half a second.
+                    # Each is discarded on its own; together they must not add up to anything either (no counter of rejected datagrams may decide a status)
+                    per_tick = max(1, n // 25)
+                    sent = 0
+                    while sent < n:
+                        for _ in range(per_tick):
+                            k = sent % 5
+                            fseq = C.SeqNum((cur + 5 + sent) % 65535 + 1)
+                            if k == 0:
+                                hdr = C.PacketHeader.create(False, int(w.vt.time()), C.PacketType(4 + sent % 4), fseq, C.SeqNum(1), 0xFFFFFFFF)
+                                f = C.Packet.create(hdr, [C.PendingMessage(C.SeqNum(900), C.PacketType.APP, b"EVIL", None, C.RetryMode.NONE)]).to_bytes(None)
+                            elif k == 1:
+                                hdr = C.PacketHeader.create(False, int(w.vt.time()), C.PacketType.APP, fseq, C.SeqNum(1), 0)
+                                f = C.Packet.create(hdr, [C.PendingMessage(C.SeqNum(901), C.PacketType.APP, b"otherkey", None, C.RetryMode.NONE)]).to_bytes(b"k" * 16)
+                            elif k == 2:
+                                hdr = C.PacketHeader.create(False, int(w.vt.time()), C.PacketType.APP, fseq, C.SeqNum(1), 0)
+                                f = hdr.to_bytes()[:20] + os.urandom(30)
+                            elif k == 3:
+                                t = bytearray(held)
+                                t[20 + sent % max(1, len(held) - 20)] ^= 1 << (sent % 8)
+                                f = bytes(t)
+                            else:
+                                f = held[:20 + sent % max(1, len(held) - 20)]
+                            w.inject(f, ADDR, kind="forged")
+                            sent += 1
+                        w.tick()
+                    for _ in range(70):                      # a full second and more of server time afterwards
+                        w.tick()
+                else:
+                    w.inject(raw, ADDR, kind="forged")
+                    w.tick()
+                    w.tick()
                 after = snapshot(conn)
-                changed = sorted(k for k in after if after[k] != before[k] and k not in ("out", "seqs", "pend", "rmsg", "retry"))      # (the loop itself keeps sending keep-alives)
+                own = ("out", "seqs", "pend", "rmsg", "retry") + (("timeouts", "cbs") if kind == "flood" else ())      # (the loop itself keeps sending keep-alives; over a second they time out unanswered)
+                changed = sorted(k for k in after if after[k] != before[k] and k not in own)
                 if pool.get(ADDR) is not conn:
                     changed.append("removed-from-pool")
                 hev = [e["what"] for e in w.ev[ev0:] if e["ev"] == "h" and e["what"] in ("connect", "disconnect", "msg")]
